@@ -138,6 +138,13 @@ def check_codec(sers, name, x, is_core, rec):
     # (4) the mapping facts named in the statement
     if name in ("json", "msgpack") and type(x) in (tuple, set, frozenset) and type(R) is not list:
         rec.violation("documented-mapping-broken:%s" % name, "%s: %s arrives as %s, expected a list" % (name, type(x).__name__, type(R).__name__), pay)
+    if name in ("serpent", "json", "msgpack"):
+        # decimal and uuid values travel as their text under the three text-minded serializers (Pyro's serializer table)
+        import decimal as _dec
+        import uuid as _uuid
+        if type(x) in (_dec.Decimal, _uuid.UUID) and (type(R) is not str or R != str(x)):
+            rec.violation("documented-mapping-broken:%s" % name, "%s: %s %s arrives as %s, expected its text %r" % (name, type(x).__name__, x, show(R), str(x)), pay)
+            return
     if name == "serpent" and type(x) is bytes:
         import base64
         import Pyro5
